@@ -209,7 +209,8 @@ def m_glycan(rng, **_) -> M:
     comp = {}
     for e, c in zip(ents, cnts):
         comp = chem.add(comp, e.comp, c)
-    return M('Glycan:' + text, mono=mono, avg=avg, comp=comp, kind='glycan')
+    ok = all(abs(e.avg - atoms.comp_mass(e.comp, False)) <= 5e-6 * e.avg for e in ents)
+    return M('Glycan:' + text, mono=mono, avg=avg, comp=comp, kind='glycan', avg_consistent=ok)
 
 
 def m_obs(rng, **_) -> M:
@@ -232,7 +233,8 @@ def m_tag_only(rng, **_) -> M:
 def with_tag(rng, m: M) -> M:
     g = rng.choice(['g1', 'g2', 'XL1'])
     score = rng.choice(['', f'({rng.choice([0.01, 0.5, 0.99])})'])
-    return M(f'{m.text}#{g}{score}', m.mult, m.mono, m.avg, m.comp, m.kind + '+tag', m.named, m.resolvable)
+    return M(f'{m.text}#{g}{score}', m.mult, m.mono, m.avg, m.comp, m.kind + '+tag', m.named, m.resolvable,
+             m.avg_consistent)
 
 
 def with_alt(rng, m: M) -> M:
@@ -246,7 +248,7 @@ def with_alt(rng, m: M) -> M:
         text = f'{m.text}|Obs:{"+" if m.mono is not None and m.mono >= 0 else ""}{m.mono!r}'
         if m.mono is None:
             text = f'{m.text}|INFO:z'
-    return M(text, m.mult, m.mono, m.avg, m.comp, m.kind + '+alt', m.named, m.resolvable)
+    return M(text, m.mult, m.mono, m.avg, m.comp, m.kind + '+alt', m.named, m.resolvable, m.avg_consistent)
 
 
 FACTORIES: Dict[str, Callable] = {
